@@ -406,6 +406,8 @@ def build_problem(spec, trace=None, setup=True, mode=None, force_alloc_complex=F
             g.linear_solver = make_ln_solver(gs['ln'], gs.get('ln_opts'))
         if gs.get('jac_type'):
             g.options['assembled_jac_type'] = gs['jac_type']
+        if gs.get('auto_order'):
+            g.options['auto_order'] = True
 
     for cn in spec.get('conns', []):
         kw = {}
@@ -423,6 +425,8 @@ def build_problem(spec, trace=None, setup=True, mode=None, force_alloc_complex=F
     for rs in spec.get('responses', []):
         kw = _dv_kwargs(rs)
         if rs.get('type') == 'obj':
+            if 'indices' in kw:      # add_objective takes a single (flat) index
+                kw['index'] = int(np.asarray(kw.pop('indices')).ravel()[0])
             root.add_objective(rs['name'], **kw)
         else:
             for k in ('lower', 'upper', 'equals'):
